@@ -140,9 +140,9 @@ harness!(map_offset_pair_tiny, 8, {
     map_offset_case2(4);
 });
 
-// @harness props=C15 tier=thorough timeout=1500 desc="same for fragments of < 2^10 rows, one lookup"
-harness!(map_offset_10bit, 14, {
-    map_offset_case1(10);
+// @harness props=C15 tier=thorough timeout=1500 desc="same for fragments of < 2^8 rows, one lookup"
+harness!(map_offset_8bit, 12, {
+    map_offset_case1(8);
 });
 
 // @harness props=C15 tier=thorough timeout=1500 desc="same for fragments of < 2^6 rows, two successive lookups"
